@@ -153,6 +153,13 @@ def main(argv):
                         n[0] = ch
             if pieces:
                 LOG.n("track_channel_cases")
+        swk = getattr(mod, "SPLIT_WAITS", None)
+        if swk and i % 5 == 4 and isinstance(case, dict) and case.get(swk) is not None:
+            # every fifth case is built from relative messages whose rests are written as several adjacent waits
+            for sp in (case[swk] if isinstance(case[swk], list) else [case[swk]]):
+                if isinstance(sp, dict) and "notes" in sp and sp.get("start") != "abs_shuffled":
+                    sp["start"], sp["split_waits"] = "rel", i
+            LOG.n("split_wait_cases")
         rs = getattr(mod, "RESTATE", None)
         if rs and i % 5 == 2 and isinstance(case, dict) and isinstance(case.get(rs), dict):
             done = gen.restate_signatures(case[rs], i)
